@@ -55,6 +55,12 @@ class C15(Check):
                     "llc": ["llc.parse", "llc.__str__", "llc.hdr"], "arp": ["arp.parse"], "ipv4": ["ipv4.parse", "ipv4.__str__"], "udp": ["udp.parse"],
                     "tcp": ["tcp_opt.unpack_new", "tcp.parse_options", "tcp.parse", "tcp.__str__"],
                     "icmp": ["echo.parse", "time_exceeded.parse", "unreach.parse", "icmp.parse", "_str_rest"],
+                    "mpls": ["mpls.parse"], "eapol": ["eapol.parse"], "eap": ["eap.parse"], "vxlan": ["vxlan.parse"], "rip": ["rip.parse", "RIPEntry.parse"],
+                    "ipv6": ["NormalExtensionHeader.unpack_new", "FixedExtensionHeader.unpack_new", "ipv6.parse"],
+                    "icmpv6": ["_parse_ndp_options", "NDOptionBase.unpack_new", "NDRouterSolicitation.unpack_new", "NDRouterAdvertisement.unpack_new",
+                               "NDNeighborSolicitation.unpack_new", "NDNeighborAdvertisement.unpack_new", "TimeExceeded.unpack_new", "PacketTooBig.unpack_new",
+                               "echo.parse", "unreach.parse", "icmpv6.parse"],
+                    "gre": ["gre.parse"], "igmp": ["igmp.parse", "GroupRecord.unpack_new"], "dns": ["dns.parse"],
                     "lldp": ["lldp.next_tlv", "lldp.parse", "lldp.__str__", "simple_tlv.parse", "chassis_id._parse_data", "port_id._parse_data", "ttl._parse_data",
                              "end_tlv._parse_data", "management_address._parse_data", "organizationally_specific._parse_data",
                              "system_capabilities._parse_data", "chassis_id.__str__", "port_id.__str__"]}
@@ -64,9 +70,9 @@ class C15(Check):
     design_ref = "DESIGN.md §5 C15, §3 Model/Packet, §6 D14, Appendix A.3"
     technique = ("Lean 4 proof about a hand-written executable model (Except-valued: every struct.unpack of a wrong-size slice, index, "
                  "deliberate raise and %-format of None is an error) of the Ethernet/VLAN/LLC-SNAP/ARP/IPv4/ICMP/TCP(+options)/UDP/LLDP parse, pack "
-                 "and print paths + differential correspondence of the compiled model against the real classes on exhaustive truncation / "
+                 "and print paths and the MPLS/EAPOL/EAP/IPv6(+extension headers)/ICMPv6(+NDP)/IGMP/GRE/VXLAN/RIP/DNS parse paths + differential correspondence of the compiled model against the real classes on exhaustive truncation / "
                  "single-byte corruption / structure-aware / random frames + independent 'nothing raises, progress recorded' oracle on all 21 parsers")
-    rule = ("case = one byte string offered to ethernet(raw=...): a valid frame of the 84-frame corpus (all 21 modules), every truncation of it, "
+    rule = ("case = one byte string offered to ethernet(raw=...): a valid frame of the 90-frame corpus (all 21 modules), every truncation of it, "
             "all 256 values at its header-boundary offsets and the 8 single-bit flips elsewhere, structure-aware mutants (length fields, option/TLV "
             "lengths, header-length nibbles, DNS pointers, nesting) or random bytes; distinct = sha1 of the frame; non-trivial = ethernet header parsed "
             "and at least one further parser entered")
@@ -270,7 +276,7 @@ class C15(Check):
         out.append(["none"] if o is None else ["bytes", len(o)] if isinstance(o, bytes) else ["!" + type(o).__name__])
         return out
 
-    HDR_LEN = {"ethernet": 14, "vlan": 4, "arp": 28, "udp": 8, "echo": 4, "unreach": 4, "time_exceeded": 4}
+    HDR_LEN = {"ethernet": 14, "vlan": 4, "arp": 28, "udp": 8, "echo": 4, "unreach": 4, "time_exceeded": 4, "mpls": 4, "eapol": 4, "vxlan": 8}
 
     def _slices_ok(self, o, frame):
         """'keeps the unparsed remainder as raw bytes', checked with the harness's own knowledge of the header sizes (no library code, no model):
@@ -285,7 +291,7 @@ class C15(Check):
             if isinstance(r, bytes) and r not in frame: return "raw of %s is not a slice of the frame" % type(o).__name__
             nx = getattr(o, "next", None)
             name = type(o).__name__; mod = type(o).__module__.rsplit(".", 1)[-1]
-            if isinstance(r, bytes) and getattr(o, "parsed", False) is True and nx is not None and (name not in ("echo", "unreach") or mod == "icmp"):
+            if isinstance(r, bytes) and getattr(o, "parsed", False) is True and nx is not None:
                 hl = self.HDR_LEN.get(name)
                 if name == "ipv4": hl = o.hl * 4
                 elif name == "tcp" and mod == "tcp": hl = o.off * 4
@@ -386,10 +392,10 @@ class C15(Check):
 
     # ------------------------------------------------------------------ model side
     def model_request(self, case):
-        return {"op": "parse", "cfg": "repaired", "raw": case["hex"]}
+        return {"op": "parse", "cfg": "repaired", "raw": case["hex"], "core": True}
 
-    def model_obs(self, case, resp):
-        self._last_model = resp
+    @staticmethod
+    def _mview(resp):
         if "error" in resp: return resp
         if resp.get("known") == "K14": return {"declined": "K14"}
         if "exc" in resp: return {"exc": resp["exc"]}
@@ -398,29 +404,33 @@ class C15(Check):
             out["pack"] = resp["pack"]; out["print"] = resp["print"]
         return out
 
-    def impl_view(self, case, obs):
-        """what must equal the model's answer.  Where the model's chain ends in `foreign cls bytes` the implementation's chain is cut at
-        the same place: the layer there must be an object of that class built from those bytes — or, for igmp / gre / a TCP segment with an
-        MPTCP option, those same bytes (ipv4.parse replaces a payload object whose parse gave up by the bytes, ipv4.py:172-173)."""
-        m = getattr(self, "_last_model", None) or {}
-        if m.get("known") == "K14" and "parse_exc" not in obs:
-            # IPAddr(<0..3-byte slice>) is interpreted as a text address by libc's inet_aton: the model over-approximates "raises" (finding K14)
-            return {"declined": "K14"}
+    def model_obs(self, case, resp):
+        """two answers: the full model (phase-2 parsers modelled) and the phase-1 model `Cfg.core` in which they are foreign layers"""
+        self._last_model = resp
+        if "error" in resp: return resp
+        return {"ext": self._mview(resp), "core": self._mview(resp.get("core", {"error": "no core answer"}))}
+
+    def _iview(self, obs, m):
+        """what must equal one model answer `m`.  Where that model's chain ends in `foreign cls bytes` the implementation's chain is cut
+        at the same place: the layer there must be an object of that class built from those bytes — or, for igmp / gre / a TCP segment with
+        an MPTCP option, those same bytes (ipv4.parse replaces a payload object whose parse gave up by the bytes, ipv4.py:172-173).
+        Where the model declines (K14: IPAddr of a short slice is libc's text parse) nothing is compared."""
+        if m.get("known") == "K14" and "parse_exc" not in obs: return {"declined": "K14"}
         if "parse_exc" in obs: return {"exc": obs["parse_exc"]["exc"]}
         ch = [dict(L) for L in obs["chain"]]
         mch = m.get("chain") or []
-        foreign = bool(mch) and mch[-1].get("k") == "foreign"
-        if foreign:
+        if mch and mch[-1].get("k") == "foreign":
             i = len(mch) - 1
             want = mch[-1]
             if i < len(ch):
                 got = ch[i]
+                gotcls = {"echo6": "echo", "unreach6": "unreach"}.get(got.get("k"), got.get("k"))
                 if got.get("k") == "foreign" and got.get("cls") == want["cls"] and got.get("raw") == want["raw"]:
                     ch = ch[:i] + [want]
-                elif want["cls"] in ("mptcp",) and got.get("k") == "bytes" and got.get("data") == want["raw"]:
+                elif gotcls == want["cls"] and got.get("raw") == want["raw"]:
+                    ch = ch[:i] + [want]                 # an object of a class this model leaves foreign, built from those bytes
+                elif want["cls"] in ("igmp", "gre", "mptcp") and got.get("k") == "bytes" and got.get("data") == want["raw"]:
                     ch = ch[:i] + [want]
-        else:
-            for L in ch: L.pop("cls_parsed", None)
         for L in ch:
             if L.get("k") == "foreign": L.pop("parsed", None)
         out = {"chain": ch}
@@ -430,6 +440,11 @@ class C15(Check):
             out["print"] = {"exc": bad[0]["exc"]} if bad else "ok"
         return out
 
+    def impl_view(self, case, obs):
+        m = getattr(self, "_last_model", None) or {}
+        if "error" in m: return None
+        return {"ext": self._iview(obs, m), "core": self._iview(obs, m.get("core", {}))}
+
     # ------------------------------------------------------------------ generators
     WITNESSES = [   # the witnesses of the `…_defect` theorems of Properties/C15.lean (same bytes), then minimised past failures
         ("lldp_d14_defect", "0180c200000e02a1b2c3d4e588cc02070402a1b2c3d4e5040202370602"),
@@ -437,6 +452,15 @@ class C15(Check):
         ("llc_print_defect", "66778899aabb02a1b2c3d4e50026"),
         ("lldp_print_defect", "0180c200000e02a1b2c3d4e588cc02080402a1b2c3d4e50004020237060200780000"),
         ("tcp_repack_defect", "66778899aabb02a1b2c3d4e50800450000521234400040065bc50a010203c0a8000103e8005001020304fffefdfc6018200000000000632a00000000000000000000000000000000000000000000000000000000000000000000000000000000"),
+        ("known_k9", "66778899aabb02a1b2c3d4e586dd61234567002b0040fe80000000000000020000fffe000001ff0200000000000000000001ff000002"),
+        ("known_k10", "66778899aabb02a1b2c3d4e508004500003a12344000402f5bb40a010203c0a80001b0000800"),
+        ("known_k13", "66778899aabb02a1b2c3d4e50800450000381234400001029ae30a010203c0a800012200260000000002"),
+        ("known_k14", "66778899aabb02a1b2c3d4e50800450000381234400001029ae30a010203c0a80001220026000000000204000000e000011601010002e1020304"),
+        ("known_k8", "66778899aabb02a1b2c3d4e586dd6123456700483a40fe80000000000000020000fffe000001ff0200000000000000000001ff00000286003c3740"),
+        ("known_k5v", "66778899aabb02a1b2c3d4e586dd6123456700203a40fe80000000000000020000fffe000001ff0200000000000000000001ff00000287007b3700"),
+        ("known_k5i", "66778899aabb02a1b2c3d4e586dd6123456700203a40fe80000000000000020000fffe000001ff0200000000000000000001ff00000288007a38"),
+        ("known_k6", "66778899aabb02a1b2c3d4e586dd6123456700103a40fe80000000000000020000fffe000001ff0200000000000000000001ff00000285007a3000000000010102"),
+        ("known_k7", "66778899aabb02a1b2c3d4e586dd6123456700103a40fe80000000000000020000fffe000001ff0200000000000000000001ff0000028500efe000000000030102a1b2c3d4e5"),
         ("eap-no-type", "66778899aabb02a1b2c3d4e5888e0100000401050004"),
         ("eap-unknown-type", "66778899aabb02a1b2c3d4e5888e010000050105000550"),
     ]
@@ -564,25 +588,31 @@ class C15(Check):
         return {"distinct_failure_keys": dict(sorted(self.keys_seen.items())), "technique": self.technique, "level_text": self.level_text, "level_note": self.level_note, "design_ref": self.design_ref}
 
 C15.theorems = ["Pox.C15." + t for t in (
-    "parse_total_partial", "nesting_defect", "progress_recorded", "repack_total_partial", "print_total_partial", "refines_c14",
-    "lldp_d14_defect", "lldp_tlv_malformed_defect", "llc_print_defect", "lldp_print_defect", "tcp_repack_defect")]
+    "parse_total_partial", "parse_total_of_no_known", "nesting_defect", "progress_recorded", "repack_total_partial", "print_total_partial",
+    "refines_c14", "lldp_d14_defect", "lldp_tlv_malformed_defect", "llc_print_defect", "lldp_print_defect", "tcp_repack_defect",
+    "known_k5v", "known_k5i", "known_k6", "known_k7", "known_k8", "known_k9", "known_k10", "known_k13", "known_k14")]
 C15.level_text = (
     "Proved in Lean for EVERY byte string offered to ethernet(raw=...) (= PacketIn.parsed), for a model in which every struct.unpack of a wrong-size slice, "
-    "index past the end, ord() of an empty slice, deliberate raise, assert and %-format of None is an error: the repaired code never raises on the path "
-    "Ethernet -> 802.1Q (nested) / LLC-SNAP -> ARP / IPv4(+options) -> ICMP echo/unreachable/time-exceeded (quoted datagram, nested) / TCP (+option parser) / UDP "
-    "and LLDP with all TLV classes, given len/4+1 nested constructor activations (parse_total_partial); the result covers the whole input and tiles it "
-    "(header, then exactly the bytes handed on or kept raw; only IPv4/UDP cut, as the code does) (progress_recorded); pack() of any result without a foreign layer "
-    "is defined (repack_total_partial), str()/dump() is defined (print_total_partial); whenever it returns, the total C14 parser returns the same chain (refines_c14). "
-    "Also proved: for every nesting budget d a frame of 14+4d bytes raises RecursionError (nesting_defect, not repaired), and five concrete defects of HEAD "
-    "(D14, TLV bodies, llc/lldp printing, TCP option overrunning the header) with their repaired counterparts. Every run re-checks the model against the real "
-    "classes on every truncation and single-byte corruption of 84 valid frames covering all 21 modules and evaluates the 'nothing raises, progress recorded' oracle.")
+    "index past the end, ord() of an empty slice, deliberate raise, assert and %-format of None is an error: given len/4+1 nested constructor activations the "
+    "code at HEAD either returns an object chain or raises at one of the registered findings C15-K5..K14 - nothing else (parse_total_partial, "
+    "parse_total_of_no_known) - on every path through 23 parser classes: Ethernet -> 802.1Q (nested) / LLC-SNAP -> ARP / IPv4(+options) -> ICMP echo/unreachable/"
+    "time-exceeded (quoted datagram, nested) / TCP (+option parser) / UDP, LLDP with all TLV classes, and (phase 2) MPLS, EAPOL/EAP, IPv6 + extension-header "
+    "chain, ICMPv6 (checksum, echo, unreachable, time-exceeded, packet-too-big) + NDP RS/RA/NS/NA with the option walker, IGMP v1-v3, GRE (+source routing), "
+    "VXLAN, RIP, DNS (as the code stands). Each finding K5..K14 has a decided witness (known_k*). The result covers the whole input and tiles it "
+    "(progress_recorded); pack() of any result made of phase-1 classes is defined (repack_total_partial), str()/dump() is defined (print_total_partial); "
+    "the phase-1 model returns what the total C14 parser returns (refines_c14). Also proved: for every nesting budget d a frame of 14+4d bytes raises "
+    "RecursionError (nesting_defect, K1), and five defects of the tree before the repairs with their repaired counterparts. Every run re-checks BOTH models "
+    "(phase-2 parsers modelled / left foreign) against the real classes on every truncation and single-byte corruption of 90 valid frames covering all 21 "
+    "modules and evaluates the 'nothing raises, progress recorded' oracle.")
 C15.level_note = (
-    "The theorems are about the hand-written model Model/PacketParse.lean of the code at HEAD, i.e. after the repairs D14, C15-1..C15-4 (committed d7ff84a..1392d59; Cfg.head = the tree before them, used only by the "
-    "_defect witnesses); they are tied to the code only by the differential run. PARTIAL: layers handed to ipv6, icmpv6 (incl. NDP), dhcp, dns, rip, vxlan, igmp, "
-    "gre, mpls, eapol/eap and the MPTCP TCP option end the model's chain as `foreign`: for those 11 parser modules NOTHING is proved, only the oracle 'no exception from "
-    "parse / pack / str / dump / PacketIn.parsed' is evaluated on the exhaustive mutation stream (hence parse_total_partial etc.). Python's recursion limit is modelled "
-    "abstractly as a nesting budget (CPython spends 2-3 frames per nested header). The print model contains only the two raising operations found in the modelled "
-    "classes' __str__ methods. Exponential time of pack() on nested UDP encapsulation (udp.checksum packs the payload again) is outside the property (no exception).")
+    "The theorems are about the hand-written model Model/PacketParse.lean of the code at HEAD, i.e. after the repairs D14, C15-1..C15-7 (Cfg.head = the tree before "
+    "them, used only by the _defect witnesses); they are tied to the code only by the differential run. PARTIAL: DHCP and the MPTCP TCP option end the model's "
+    "chain as `foreign` (nothing proved; oracle only); pack()/str() of the phase-2 classes are not modelled (their known failures are findings K2-K4, K11, K12, K15, K16; "
+    "oracle only). DNS is modelled as the code stands: any announced question/record makes parse give up (ord() on an int inside the try/except, D46), so name "
+    "decompression and its pointer loops are unreachable and not modelled. K14 is over-approximated (IPAddr of a 0..3-byte slice is libc's text parse): where "
+    "Python happens to accept the text the model declines and nothing is compared. struct.pack('!I', len) in the ICMPv6 checksum is assumed not to overflow "
+    "(frames < 4 GiB). Python's recursion limit is modelled abstractly as a nesting budget (CPython spends 2-3 frames per nested header). The print model contains "
+    "only the two raising operations found in the phase-1 classes' __str__ methods. Exponential time of pack() on nested UDP encapsulation is outside the property.")
 C15.trusted_base = [
     "model Model/PacketParse.lean (reusing the header records, struct layouts, hdr() and TCP option models of Model/PacketHdr.lean, C14) hand-written from pox/lib/packet; tied by this correspondence run",
     "harness/c15_frames.py: hand-written wire builders for the corpus of valid frames; harness/c15.py: mutation engines, canonicalisation of the object chain, the oracle"]
